@@ -33,3 +33,35 @@ Proof. split; vm_compute; repeat constructor. Qed.
 Print Assumptions C20_no_shared_writes_outside_init.
 Print Assumptions C20_frame.
 Print Assumptions C20_interleaving_independent.
+
+(* ---- second audit, N13: C20_frame was instantiated nowhere ----
+   The frame theorem is generic in the shared store, the private state and the step.  An instance on the operation models:
+   goroutines that each Merge the SAME shared argument B (read, never written: the step is a function of it) into their
+   own private receiver - under any interleaving every receiver ends as if its goroutine had run alone.  This ties the
+   semantics to Model/Ops.v only; that the library's calls are steps of this kind (no write to package state, (ii) above;
+   no write to a shared argument) is the effect analysis plus the harness, as said in the header.
+   Also noted by the audit: Kit/GoMap.v's [range_sorted] (C19_sorted_range_independent) is used by NO writer model - the
+   WebVTT and SSA writer models sort their keys with their own [ssort] and take the iteration orders as parameters
+   (C19_vtt_deterministic, C19_ssa_deterministic); [range_sorted] is the generic statement of the mechanism only.  And
+   Gen/Effects.v lists what tools/geneffects finds in the current tree (the count in DESIGN.md is from an earlier tree). *)
+From Coq Require Import ZArith NArith.
+From Astisub Require Import Kit.Base Model.Ops.
+Definition merge_step (pr : list region) (ps : list style) (b : subs) (a : subs) : subs := merge a b pr ps.
+Theorem C20_frame_merge : forall pr ps sched (b : subs) (ls : nat -> subs) t,
+  Frame.run subs subs (merge_step pr ps) sched b ls t = Frame.iter subs subs (merge_step pr ps) (count_occ Nat.eq_dec sched t) b (ls t).
+Proof. intros pr ps. exact (frame subs subs (merge_step pr ps)). Qed.
+(* any operation of one argument on a private list, the shared store being whatever is only read *)
+Theorem C20_frame_private_op : forall (Sh : Type) (op : list item -> list item) sched (sh : Sh) ls t,
+  Frame.run Sh (list item) (fun _ l => op l) sched sh ls t = Frame.iter Sh (list item) (fun _ l => op l) (count_occ Nat.eq_dec sched t) sh (ls t).
+Proof. intros Sh op. exact (frame Sh (list item) (fun _ l => op l)). Qed.
+(* non-vacuity: two goroutines, schedule 0 1 0: goroutine 0 merged B twice, goroutine 1 once, each as if alone *)
+Example C20_frame_merge_example :
+  let b := mkSubs [mkItem 3 5 7 [] None None false]%Z None None in
+  let a0 := mkSubs [mkItem 1 9 10 [] None None false]%Z None None in
+  let a1 := mkSubs [mkItem 2 1 2 [] None None false]%Z None None in
+  let ls := fun t => if Nat.eqb t 0 then a0 else a1 in
+  map uid (items (Frame.run subs subs (merge_step [] []) [0; 1; 0]%nat b ls 0%nat)) = [3; 3; 1]%N /\
+  map uid (items (Frame.run subs subs (merge_step [] []) [0; 1; 0]%nat b ls 1%nat)) = [2; 3]%N.
+Proof. split; reflexivity. Qed.
+Print Assumptions C20_frame_merge.
+Print Assumptions C20_frame_private_op.
